@@ -725,3 +725,33 @@ package pubsub
 //@   ensures accepted: result == nil ==> params.PrunePeers >= 0 && params.HistoryGossip <= params.HistoryLength && params.Dscore <= params.Dhi &&
 //@        ((params.D == 0 && params.Dlo == 0 && params.Dhi == 0 && params.Dout == 0) ||
 //@         (params.Dlo <= params.D && params.D <= params.Dhi && params.Dout < params.Dlo && 2 * params.Dout < params.D))
+
+// ---- C11/C19: what gossipsub hands to the outbound queue ----
+//
+// doSendRPC: exactly one push attempt on the peer's queue (urgent or normal as asked), traced as
+// SEND_RPC iff it succeeded, otherwise dropped through doDropRPC (DROP_RPC and control retry).
+//@ func (*GossipSubRouter).doSendRPC
+//@   property C11 C19
+//@   requires args: rpc != nil
+//@   noframe
+//@   ensures one-attempt: calls((*rpcQueue).Push) + calls((*rpcQueue).UrgentPush) == old(calls((*rpcQueue).Push) + calls((*rpcQueue).UrgentPush)) + 1
+//@   ensures lane: urgent ==> calls((*rpcQueue).UrgentPush) == old(calls((*rpcQueue).UrgentPush)) + 1 && lastarg((*rpcQueue).UrgentPush, 1) == rpc
+//@   ensures lane-normal: !urgent ==> calls((*rpcQueue).Push) == old(calls((*rpcQueue).Push)) + 1 && lastarg((*rpcQueue).Push, 1) == rpc
+//@   ensures traced: calls((*pubsubTracer).SendRPC) - old(calls((*pubsubTracer).SendRPC)) + calls((*GossipSubRouter).doDropRPC) - old(calls((*GossipSubRouter).doDropRPC)) == 1
+//@   at call SendRPC assert after-success: $arg1 == rpc && $arg2 == p && ite(urgent, lastret((*rpcQueue).UrgentPush), lastret((*rpcQueue).Push)) == nil
+//@   at call doDropRPC assert after-failure: $arg1 == rpc && $arg2 == p && ite(urgent, lastret((*rpcQueue).UrgentPush), lastret((*rpcQueue).Push)) != nil
+
+// sendRPC: an RPC is queued only if its encoded size is below the limit; an oversized RPC goes
+// through split, and (closure sendRPC$1, the body of the range-over-func loop) a fragment is
+// queued only if its own size does not exceed the limit - a larger fragment is dropped and
+// reported (DROP_RPC) instead of being written to the wire.
+//@ func (*GossipSubRouter).sendRPC
+//@   property C11
+//@   requires wf: wfGS(gs) && out != nil && gs.p.peers != nil && gs.control != nil && gs.gossip != nil
+//@   noframe
+//@   at call doSendRPC assert below-limit: lastret((*pb.RPC).Size) < gs.p.maxMessageSize && lastarg((*pb.RPC).Size, 0) == $arg1.RPC && $arg2 == p && $arg3 == gs.p.peers[p]
+//@ func (*GossipSubRouter).sendRPC$1
+//@   property C11
+//@   noframe
+//@   at call doSendRPC assert fragment-within-limit: !(lastret((*pb.RPC).Size) > gs.p.maxMessageSize) && $arg2 == p && $arg3 == q
+//@   at call doDropRPC assert oversized-reported: firstret((*pb.RPC).Size) > gs.p.maxMessageSize && $arg2 == p
